@@ -638,7 +638,8 @@ func init() {
 	register(&vf.Check{
 		ID:        "C18",
 		Technique: "runtime monitor with the harness as a raw TCP server: request validation, acceptance predicate computed independently (own SHA-1/base64 path), scripted responses (status, header set/order/case/whitespace, wrong accept, truncation, segmentation) and piggy-backed wsref frames compared with what the client reads; bounded-progress probes for lost bytes",
-		Rule: "cases = 1-4 consecutive handshakes on one Stream (blocking and asynchronous), each against a scripted response: status {101, 101 with other text, 200, 400}, Upgrade {websocket in 3 spellings, other, absent}, Connection present/absent, Accept {correct, wrong, of another key, missing, correct with its letter case changed, correct with the base64 padding bits changed}, 0-3 extra headers, header order permuted, header-name case {canonical, lower, upper}, separator {': ', ':', ':   ', trailing blanks}, response+frames sent whole / cut at 1-2 random offsets / cut exactly at the blank line / cut inside the CRLF CRLF, server closing after k bytes, 0-3 frames piggy-backed and 0-2 sent later; after an accepted handshake optionally a small AsyncWrite that must complete, and one session in three is torn down with an asynchronous write still in flight; " +
+		Rule: "piggy-backed payloads may end in CR LF CR LF; a tenth of the heads carry 8-40 KiB of extra header; one response class is a head far over 64 KiB that never ends; one accepted handshake in eight is followed by 6-14 frames of about 1 KB in the same bytes; a server that stops in mid-response half-closes and waits for the client's end; " +
+			"cases = 1-4 consecutive handshakes on one Stream (blocking and asynchronous), each against a scripted response: status {101, 101 with other text, 200, 400}, Upgrade {websocket in 3 spellings, other, absent}, Connection present/absent, Accept {correct, wrong, of another key, missing, correct with its letter case changed, correct with the base64 padding bits changed}, 0-3 extra headers, header order permuted, header-name case {canonical, lower, upper}, separator {': ', ':', ':   ', trailing blanks}, response+frames sent whole / cut at 1-2 random offsets / cut exactly at the blank line / cut inside the CRLF CRLF, server closing after k bytes, 0-3 frames piggy-backed and 0-2 sent later; after an accepted handshake optionally a small AsyncWrite that must complete, and one session in three is torn down with an asynchronous write still in flight; " +
 			"every case is non-trivial; distinct = sequence of (response class, segmentation, API)",
 		Assumptions: []string{
 			"acceptance = status 101 AND Upgrade: websocket (case-insensitive) AND Sec-WebSocket-Accept = base64(sha1(key+GUID)), exactly as the statement lists; the Connection response header is not part of it",
